@@ -44,8 +44,9 @@ type simGroup struct {
 	processFn raft.ProcessFn
 	snapFn    raft.SnapshotFn
 	restoreFn raft.ProcessFn
-	inbox     chan []byte
+	inbox     chan interface{} // []byte: a committed catalogue entry; func(): a conf change applied by the same goroutine
 	applied   int
+	panics    []string // panics of the apply goroutine (in production: the node dies)
 	appliedMu sync.Mutex
 	stopped   chan struct{}
 }
@@ -72,10 +73,24 @@ func (g *simGroup) Propose(ctx context.Context, data []byte) error {
 func (g *simGroup) run() {
 	for {
 		select {
-		case d := <-g.inbox:
-			if g.processFn != nil {
-				g.processFn(d)
-			}
+		case it := <-g.inbox:
+			func() {
+				defer func() {
+					if r := recover(); r != nil {
+						g.appliedMu.Lock()
+						g.panics = append(g.panics, fmt.Sprint(r))
+						g.appliedMu.Unlock()
+					}
+				}()
+				switch d := it.(type) {
+				case []byte:
+					if g.processFn != nil {
+						g.processFn(d)
+					}
+				case func():
+					d()
+				}
+			}()
 			g.appliedMu.Lock()
 			g.applied++
 			g.appliedMu.Unlock()
@@ -83,6 +98,12 @@ func (g *simGroup) run() {
 			return
 		}
 	}
+}
+
+func (g *simGroup) Panics() []string {
+	g.appliedMu.Lock()
+	defer g.appliedMu.Unlock()
+	return append([]string{}, g.panics...)
 }
 
 func (g *simGroup) Applied() int {
@@ -152,7 +173,7 @@ func newSimCluster(n int) *simCluster {
 		if err != nil {
 			panic(err)
 		}
-		g := &simGroup{cat: c.cat, nodeId: id, inbox: make(chan []byte, 4096), stopped: make(chan struct{})}
+		g := &simGroup{cat: c.cat, nodeId: id, inbox: make(chan interface{}, 4096), stopped: make(chan struct{})}
 		vn, err := storage.VerifNewNode(id, db, g)
 		if err != nil {
 			panic(err)
